@@ -981,6 +981,53 @@ fn t_morx_insertion() -> R {
     Ok(())
 }
 
+fn t_morx_feat() -> R {
+    // chain default flags 1; subtable A (flags 1) maps 1 -> 5, subtable B (flags 2) maps 2 -> 6.
+    // chain feature entries: ligatures/common-on enables 1, ligatures/common-off clears 1,
+    // lower-case/small-caps enables 2, deprecated letter-case/small-caps enables 2.
+    let map = |a: u16, b: u16| MorxKind::NonContextual(AatLookup::new(6, vec![(a, b)]));
+    let chain = MorxChain {
+        default_flags: 1,
+        features: vec![
+            MorxFeature { feature_type: 1, feature_setting: 2, enable_flags: 1, disable_flags: 0xFFFF_FFFF },
+            MorxFeature { feature_type: 1, feature_setting: 3, enable_flags: 0, disable_flags: 0xFFFF_FFFE },
+            MorxFeature { feature_type: 37, feature_setting: 1, enable_flags: 2, disable_flags: 0xFFFF_FFFF },
+            MorxFeature { feature_type: 3, feature_setting: 3, enable_flags: 2, disable_flags: 0xFFFF_FFFF },
+        ],
+        subtables: vec![
+            MorxSubtable { coverage: 0, sub_feature_flags: 1, kind: map(1, 5) },
+            MorxSubtable { coverage: 0, sub_feature_flags: 2, kind: map(2, 6) },
+        ],
+    };
+    let mut s = morx_font(vec![chain]);
+    s.feat = Some(Feat {
+        names: vec![
+            FeatName { feature: 1, settings: vec![2, 3], exclusive: false, default_index: None },
+            FeatName { feature: 37, settings: vec![0, 1], exclusive: true, default_index: Some(0) },
+        ],
+    });
+    let bytes = build(&s);
+    let f = face(&bytes)?;
+    let feat = f.tables().feat.ok_or("feat table not parsed")?;
+    let parsed: Vec<(u16, Vec<u16>, bool)> =
+        feat.names.into_iter().map(|n| (n.feature, n.setting_names.into_iter().map(|x| x.setting).collect(), n.exclusive)).collect();
+    eq("feat records", parsed, vec![(1, vec![2, 3], false), (37, vec![0, 1], true)])?;
+    expect_ids(&s, &[1, 2], &[], &[5, 2])?;
+    expect_ids(&s, &[1, 2], &["-liga"], &[1, 2])?;
+    expect_ids(&s, &[1, 2], &["liga"], &[5, 2])?;
+    expect_ids(&s, &[1, 2], &["smcp"], &[5, 6])?;
+    expect_ids(&s, &[1, 2], &["smcp", "-liga"], &[1, 6])?;
+    expect_ids(&s, &[1, 2], &["kern"], &[5, 2])?; // no AAT mapping: nothing changes
+    // without a feat record for lower case but with one for letter case: the deprecated small-caps selector
+    s.feat = Some(Feat { names: vec![FeatName { feature: 3, settings: vec![0, 3], exclusive: true, default_index: None }] });
+    expect_ids(&s, &[1, 2], &["smcp"], &[5, 6])?;
+    expect_ids(&s, &[1, 2], &["-liga"], &[5, 2])?; // ligatures are not exposed by feat: the request is dropped
+    // no feat table at all: user features are ignored
+    s.feat = None;
+    expect_ids(&s, &[1, 2], &["smcp", "-liga"], &[5, 2])?;
+    Ok(())
+}
+
 fn t_overflow_message() -> R {
     // a table over 64K must panic with a clear message rather than write a wrong offset
     let big: Vec<u16> = (0..40000u32).map(|i| (i % 20) as u16).collect();
@@ -1044,6 +1091,7 @@ pub fn selftest() -> Result<(), String> {
         ("morx-contextual", t_morx_contextual),
         ("morx-ligature", t_morx_ligature),
         ("morx-insertion", t_morx_insertion),
+        ("morx-feat-chain-features", t_morx_feat),
         ("offset-overflow-panics-extension-rescues", t_overflow_message),
     ];
     let mut failed = Vec::new();
